@@ -158,6 +158,10 @@ def classify(o, reasons):
     stray offsets and exceptions are never explained."""
     out = {}
     for v in L.judge(o):
+        if v["kind"] == "exception" and v["exc"] == "EXC:AttributeError" \
+                and o.skip.get(v["query"]) == "inherited-import-attribute-hint-crash":
+            out.setdefault("inherited-import-attribute-hint-crash", []).append(v)
+            continue
         if v["kind"] in ("stray", "exception"):
             out.setdefault(None, []).append(v)
             continue
@@ -173,6 +177,13 @@ def class_env(o, t):
     for n in ast.walk(info.tree):
         if isinstance(n, ast.Name) and (n.lineno, n.col_offset) == (t.line, t.col):
             return isinstance(info.where.scope_of.get(id(n)), ast.ClassDef)
+    return False
+
+
+def self_named_base(tree):
+    for n in ast.walk(tree):
+        if isinstance(n, ast.ClassDef) and any(isinstance(b, ast.Name) and b.id == n.name for b in n.bases):
+            return True
     return False
 
 
@@ -288,6 +299,11 @@ def check_modules(ctx, sources, stream):
         if any(isinstance(r, str) for r in o.rope.values()) and patchedast_fails(src):
             # the patched AST cannot be built for this text (MismatchedTokenError and friends): C08's findings
             ctx.count("patchedast-fails(C08):" + stream)
+            continue
+        if self_named_base(o.tr.tree):
+            # `class x(x)` inside a scope that has another x: the superclass relation rope builds depends on the order
+            # its inference runs in (C15 keeps cyclic superclass relations out of its model too)
+            ctx.count("skipped_self_named_base:" + stream)
             continue
         obs.append(o)
     results = coq_results(ctx, obs) if obs else []
